@@ -2,6 +2,7 @@
 (* One logged line per executed action: e.op + arguments, and observed AFTER the action                 *)
 (*   e.pl   - deep snapshot of ALL players of the running game (player.vars projected to the shape of   *)
 (*            Players!P: LogicBlockState -> [x, v, en, done], missing variables -> the NoP defaults)     *)
+(*            (num: the player variable "number" of the player at that position of game.player_list)     *)
 (*   e.live - what the device objects and the mode controller show (shape of Players!Live)              *)
 (*   e.evs  - the player_<var> events delivered during the action: <<var, value, prev_value, change, player_num>> *)
 (*   e.tevs - the same for the string/None/int variables, values written as in Players!TVals            *)
@@ -29,6 +30,7 @@ TStep(e) ==
     \/ e.op = "latereq" /\ LateReq(e.m, e.run)
     \/ e.op = "turnstart" /\ TurnStart
     \/ e.op = "addplayer" /\ AddPlayer
+    \/ e.op = "addburst" /\ AddBurst(e.k)
     \/ e.op = "score" /\ Score
     \/ e.op = "var" /\ SetVar(e.kind)
     \/ e.op = "pvar" /\ PVar(e.kind, e.n, e.fb)
@@ -70,8 +72,12 @@ FrameOK == Seen /\ o.op \notin {"newgame"} =>
 SameLive(a, b) == /\ [a EXCEPT !.tick = 0] = [b EXCEPT !.tick = 0]
                   /\ (b.g2 => a.tick = b.tick)        \* the tick count of an unloaded timer is nobody's state
 \* FreshGame: a new game / a joining player starts from the configured initial values, nothing of an earlier game shows
-FreshOK == Seen => /\ (o.op = "newgame" => NPl = 1 /\ o.pl[1] = InitP /\ SameLive(o.live, Live))
+FreshOK == Seen => /\ (o.op = "newgame" => NPl = 1 /\ o.pl[1] = JoinP(1) /\ SameLive(o.live, Live))
                    /\ (o.op = "addplayer" => NPl = np /\ o.pl[np] = P[np])
+                   \* a burst of add requests: as many new players as the model says, each from the configured initial values
+                   /\ (o.op = "addburst" => NPl = np /\ \A q \in 1..np : P[q] = JoinP(q) => o.pl[q] = JoinP(q))
+\* NumbersDistinct: the players are numbered 1..n in the order in which they joined - nobody shares his number
+NumbersOK == Seen => \A q \in 1..NPl : o.pl[q].num = q
                    /\ (ph = "idle" => NPl = 0 /\ o.live.g1 = FALSE /\ o.live.g2 = FALSE)
 \* Restore: when a ball has just started for cur, the devices show what cur owned, and cur's record is what was saved
 BallStarted == o.op = "turnstart" \/ (o.op \in {"ballend", "endgame", "release"}/\ ph = "ball")
